@@ -591,7 +591,10 @@ Lemma stop_violation_none (inp : input) (v : nat) (c : cell) :
      match iv_max_wait (get_vehicle inp v) with
      | Some w => w <? c_wait_acc c | None => false end = false).
 Proof.
-  unfold stop_violation. cbv zeta. cbn [negb].
+  intros H0.
+  assert (H : builtin_violation inp v true c = None).
+  { unfold stop_violation in H0. destruct (builtin_violation inp v true c); [discriminate|reflexivity]. }
+  clear H0. revert H. unfold builtin_violation. cbv zeta. cbn [negb].
   intros H.
   assert (Hcap : (if has_capacity inp
                   then find (fun r => (capacity inp v r <? nthZ (c_levels c) r) || (nthZ (c_levels c) r <? 0))
@@ -1540,7 +1543,7 @@ Definition ex2_vehicle : ivehicle :=
   mkIVehicle (Some [2; 3]) [0; 0] 3000 (Some 20000) (Some 15000) None (Some 1000) (Some 5000)
              [] 10 true true.
 Definition ex2_inp : input :=
-  mkInput [mkIStop [-1; 0] 10 [(3600, 7200); (10800, 14400)] (Some 4000) 100 [];
+  mkInput [] [mkIStop [-1; 0] 10 [(3600, 7200); (10800, 14400)] (Some 4000) 100 [];
            mkIStop [0; -2] 10 [] None 100 [];
            mkIStop [-1; -1] 10 [] None 100 []]
           [ex2_vehicle; ex2_vehicle]
